@@ -26,6 +26,17 @@ def gen_case(rng):
         case['spec']['omen']['keyspace'] = [[l, max(0, k + rng.choice([-3, -1, 0, 1, 5, -k, k]))] for l, k in case['spec']['omen']['keyspace']]
     if rng.random() < 0.25:
         rulesets.legacy_variant(rng, case['spec'])         # ruleset in a legacy code page; some upper-cased guesses fall outside it
+    if rng.random() < 0.12:
+        # the same value listed twice in one probability group of a terminal file (legal: it is then generated twice); the order inside the group is the file's
+        groups = [(lab, rows) for lab, rows in case['spec']['terms'].items() if lab[0] in 'ADOK' and len(rows) >= 2]
+        if groups:
+            lab, rows = rng.choice(groups)
+            p0 = rows[0][1]
+            width = lab[1:]
+            fill = {'A': 'qzxj', 'D': '7391', 'O': '!#%&', 'K': '1qaz'}[lab[0]]
+            extra = [(fill * 8)[k:k + int(width)] for k in range(3)] if lab[0] != 'K' else []
+            rows[:0] = [[rows[0][0], p0]] + [[v, p0] for v in extra if len(v) == int(width)]
+            case['dup_value'] = lab
     case['flags'] = {'skip_brute': rng.random() < 0.25, 'all_lower': rng.random() < 0.25}
     return case
 
@@ -154,7 +165,7 @@ def check_case(run, case, tier='quick'):
         picks = [None] + rng.sample(Ns, min(len(Ns), SPAWNS[tier] - 1))
         for n in picks:
             args = ['-r', name, '-s', sn + 'cli'] + fl + ([] if n is None else ['-n', str(n)])
-            out, err, rc, to = cli.run_cli('pcfg_guesser.py', args, stdin_mode=rng.choice(['open', 'eof', 'devnull']))
+            out, err, rc, to = cli.run_cli('pcfg_guesser.py', args, stdin_mode=rng.choice(['open', 'eof', 'devnull']), hashseed=rng.choice(['0', '1', '12345', '987654']))
             run.ev('cli_runs')
             if to:
                 run.inconc('cli watchdog'); continue
